@@ -64,3 +64,51 @@ contract(
     },
     inline=["empty"],
 )
+
+# ------------------------------------------------------------------------------------------------------------------
+# the two memo tables behind find(): a memoised answer equals the uncached one for *these* arguments, i.e. the key holds
+# every input the uncached computation reads.  NN / TY stand for the uncached computations (assumed to be functions of
+# exactly the listed arguments: for a name, its text and its quoted flag are all normalize_name reads of it).
+uninterpreted("NN", 5)
+uninterpreted("TY", 2)
+uninterpreted("name_of", 1)    # Identifier.name / .quoted (properties over args): functions of the node, which is not mutated here
+uninterpreted("quoted_of", 1)
+fields(_normalized_name_cache="dict", _type_mapping_cache="dict", _dialect="Dialect", quoted="bool")
+define("name_coh", "lambda s: forall(val, lambda n, q, d, t, z: implies(has(s._normalized_name_cache, (n, q, d, t, z)) and is_bool(q) and is_bool(t) and is_bool(z),"
+                   " is_str(s._normalized_name_cache[(n, q, d, t, z)]) and implies(truthy(s._normalized_name_cache[(n, q, d, t, z)]),"
+                   " s._normalized_name_cache[(n, q, d, t, z)] is NN(n, q, d, t, z))))")
+define("type_coh", "lambda s: forall(val, lambda x, d: implies(has(s._type_mapping_cache, (x, d)), s._type_mapping_cache[(x, d)] is TY(x, d)))")
+
+contract(
+    S, "MappingSchema._normalize_name", props=["C18", "C15"],
+    types={"name": "str|Identifier", "dialect": "any", "is_table": "bool", "normalize": "bool|none", "name_str": "str"},
+    requires=["name_coh(self)", "is_bool(self.normalize)"],
+    ensures=["name_coh(self)",
+             # whatever the cache held, the answer is the uncached one for this very name (text + quoted flag), dialect and flags
+             "result is NN(name_str, quoted, dialect, is_table, normalize)"],
+    modifies=["self._normalized_name_cache{}"],
+    ghost={"post_uses_final_locals": True},
+    opaque={
+        "normalize_name": dict(returns="Identifier", ensures=["name_of(result) is NN(name_str, quoted, dialect, is_table, normalize)"]),
+        ".name": dict(returns="str", pure=True, uf="name_of"), ".quoted": dict(returns="bool", pure=True, uf="quoted_of"),
+    },
+    inline=["dialect"],
+)
+
+contract(
+    S, "MappingSchema._to_data_type", props=["C18", "C15"],
+    types={"schema_type": "str", "dialect": "any"},
+    requires=["type_coh(self)"],
+    ensures=["type_coh(self)", "result is TY(schema_type, dialect)"],
+    raises={"SchemaError": ["type_coh(self)"]},
+    modifies=["self._type_mapping_cache{}"],
+    ghost={"post_uses_final_locals": True},
+    opaque={
+        "Dialect.get_or_raise": dict(returns="Dialect", pure=True),
+        ".SUPPORTS_USER_DEFINED_TYPES": dict(returns="bool"),
+        "exp.DataType.from_str": dict(returns="Expression", raises=["AttributeError"], ensures=["result is TY(schema_type, dialect)"]),
+        # normalises the identifiers of the freshly built type in place; returns the same node
+        "expression.transform": dict(returns="any", raises=["AttributeError"]),
+    },
+    inline=["dialect"],
+)
